@@ -1029,6 +1029,13 @@ pub fn gen_sub(prop: &str, tier: &str, seed: u64) -> Out {
                 o.push(format!("kpparse {}", hex(t.as_bytes())));
                 o.push(format!("kproundtrip {}", hex(t.as_bytes())));
             }
+            // quoted names ending in escaped backslashes (the closing quote is NOT escaped) and in an escaped quote (it is)
+            for t in ["{\"C:\\\\\"}", "{\"a\\\\\",\"}", "{\"\\\\\"}", "{\"\\\\\\\\\"}", "{\"x\\\\\\\"\"}", "{\"a\\\\\",b}", "{\"a\\\\\" , \"b\\\\\"}"] {
+                o.push(format!("kpparse {}", hex(t.as_bytes())));
+                o.push(format!("kproundtrip {}", hex(t.as_bytes())));
+                let jp = format!("$.{}", &t[1..t.len() - 1]);
+                o.push(format!("jpparse {}", hex(jp.as_bytes())));
+            }
             for t in ["{\"a}", "{\"a,b}", "{\"\n\ny}", "{\"ab}", "{\"}", "{\"a\"", "{\"a\" ,", "{\"a\\\"}"] {
                 o.push(format!("kpparse {}", hex(t.as_bytes())));
                 o.push(format!("kpreject {}", hex(t.as_bytes())));
@@ -1207,6 +1214,17 @@ pub fn gen_sub(prop: &str, tier: &str, seed: u64) -> Out {
             use crate::ops_chain::{parse_op, step};
             let small = DocCfg { max_depth: 2, max_fanout: 3, nonfinite: false, long_strings: false };
             let fc = c.clone().finite();
+            // short fixed chains over small documents: every pair through the two-document operations
+            {
+                let docs = ["[]", "{}", "null", "true", "[true,null,\"x\"]", "[false,\"x\"]", "[null,true,false,\"\"]", "[1,1.0,\"1\"]", "{\"a\":1}", "{\"a\":2,\"b\":1}", "[[],{}]", "[{\"a\":1},[1]]"];
+                for a in docs { for b in docs {
+                    let (ha, hb) = (hex(&jsonb::parse_value(a.as_bytes()).unwrap().to_vec()), hex(&jsonb::parse_value(b.as_bytes()).unwrap().to_vec()));
+                    for tok in [format!("in:L{}", hb), format!("ex:L{}", hb), format!("cat:L{}:r", hb), format!("cat:L{}:l", hb), format!("ai:0:L{}", hb), format!("wa:S|L{}", hb)] {
+                        let line = format!("{} {} ds", ha, tok);
+                        o.push(format!("chain {}", line)); o.push(format!("spec:chain {}", line)); o.push(format!("chaincheck {}", line));
+                    }
+                } }
+            }
             for _ in 0..scale(tier, 1500, 30000) {
                 let v0 = if r.chance(1, 12) { gen_scalar(&mut r, &fc) } else if r.chance(1, 10) { jsonb::parse_value(r.pick(SMALL_DOCS).as_bytes()).unwrap() } else { gen_value(&mut r, &fc, 0) };
                 o.doc_stats(&v0);
